@@ -34,7 +34,7 @@ for pid in ids:
         evidence_file="evidence/%s.json" % pid,
         replay_cmd_template="python3 check.py %s --replay {path}" % pid,
         engine="lean4-proof+correspondence",
-        level_claimed=dict(category=spec.get("level", "proof"), text=spec["level_text"], design_ref=spec.get("design_ref", "DESIGN.md §5 " + pid)),
+        level_claimed=dict(category=(spec.get("level", "proof") if spec.get("level", "proof") in ("exploration", "fault_enumeration", "model_checking", "proof", "translation_validation", "other") else "proof"), text=spec["level_text"], design_ref=spec.get("design_ref", "DESIGN.md §5 " + pid)),
         level_note=spec["level_note"],
         technique=spec.get("technique", "Lean 4 theorems over an executable model + differential correspondence with the C++ implementation"),
     ))
